@@ -550,8 +550,12 @@ double Find_Root(std::function<double(double)> func, double xLeft, double xRight
 			double f3 = func(x3);
 			if(f3 == 0.0)
 				return x3;
-			// New point
-			double x4 = x3 + (x3 - x1) * Sign(f1 - f2) * f3 / sqrt(f3 * f3 - f1 * f2);
+			// New point. The update depends on the ratios of the function values only: a common power of two is taken out,
+			// so that the products neither underflow nor overflow for very small or very large function values.
+			int exponent;
+			frexp(std::max(fabs(f3), std::max(fabs(f1), fabs(f2))), &exponent);
+			double g1 = ldexp(f1, -exponent), g2 = ldexp(f2, -exponent), g3 = ldexp(f3, -exponent);
+			double x4 = x3 + (x3 - x1) * Sign(g1 - g2) * g3 / sqrt(g3 * g3 - g1 * g2);
 			// Rounding (or under-/overflow of the products) must not carry the new point out of the bracket
 			x4 = std::min(std::max(x4, std::min(x1, x2)), std::max(x1, x2));
 			// Successive iterates agree: a candidate for the root (confirmed below)
